@@ -55,7 +55,8 @@ FieldBad(s, b, o, c) ==
 \* ---- attribute scenes
 \* The law holds after EVERY assignment, whatever its outcome (s.outcome: "ok" | "warned" | "raised"; s.filter: "default" |
 \* "error" = warnings escalated to errors | "ignore").  For the steps of an assignment sequence (s.seq) the values before
-\* the assignment (P0, Mu0) and the assigned value A (as a polarization) are logged too: the pair (polarization,
+\* the assignment (P0, Mu0), the values after it (Pc, Muc) and the assigned value A (as a polarization) are logged on one
+\* common scale: the pair (polarization,
 \* mu0*magnetization) is either unchanged or new in BOTH members - never mixed.
 AttrBad(s, b, o, c) ==
   IF ~o.fin THEN {<<"nonfinite", "C15", 0>>}
@@ -63,9 +64,9 @@ AttrBad(s, b, o, c) ==
        \cup (IF c # "in" \/ VecClose12(o.J, o.P, TolAttr) THEN {} ELSE {<<"J-attr", "C02", DevVec(o.J, o.P)>>})
        \cup (IF c # "in" \/ VecClose12(o.M, o.Mu, TolAttr) THEN {} ELSE {<<"M-attr", "C02", DevVec(o.M, o.Mu)>>})
        \cup (IF ~s.seq THEN {}
-             ELSE LET chP == ~VecClose12(o.P, o.P0, TolAttr)
-                      chM == ~VecClose12(o.Mu, o.Mu0, TolAttr)
-                      stored == VecClose12(IF s.attr = "polarization" THEN o.P ELSE o.Mu, o.A, TolAttr)
+             ELSE LET chP == ~VecClose12(o.Pc, o.P0, TolAttr)     \* (Pc, Muc = P, Mu on the common scale of before and after)
+                      chM == ~VecClose12(o.Muc, o.Mu0, TolAttr)
+                      stored == VecClose12(IF s.attr = "polarization" THEN o.Pc ELSE o.Muc, o.A, TolAttr)
                   IN (IF chP = chM THEN {} ELSE {<<"attr-mixed", "C02", 12>>})
                      \* a completed assignment stores the value (C17); one that raised either stored it or left the pair alone
                      \cup (IF s.outcome # "raised" /\ ~stored THEN {<<"attr-stored", "C17", 12>>} ELSE {})
